@@ -204,6 +204,8 @@ fn render(ctx: Ctx, d: Dialect, calls: &[Call]) -> Option<Result<String, String>
             let mut s = Query::select();
             s.column(al("id")).from(al("tv"));
             apply_where(&mut s, calls);
+            // the usual way to finish a builder chain: move the statement out, render the moved value
+            let s = s.take();
             Some(qb!(d, s))
         }
         Ctx::Having | Ctx::HavingNoGroup => {
@@ -227,6 +229,7 @@ fn render(ctx: Ctx, d: Dialect, calls: &[Call]) -> Option<Result<String, String>
                     }
                 }
             }
+            let s = s.take();
             Some(qb!(d, s))
         }
         Ctx::JoinOn => {
